@@ -85,6 +85,13 @@ type Case struct {
 	Locals       []Entry `json:"locals,omitempty"`
 	Shared       []Entry `json:"shared,omitempty"`
 	SharedIntIds bool    `json:"sharedIntIds,omitempty"` // shared ids as Go int (hand-built config) instead of float64 (fetched JSON)
+
+	// mhist (hist.go): the local documents Docs are loaded one after the other (Loaders: file | env per
+	// load) against the SAME maps of the shared configuration Shared; Mutate: the caller changes every
+	// returned chain entry right after reading it
+	Docs    [][]Entry `json:"docs,omitempty"`
+	Loaders []string  `json:"loaders,omitempty"`
+	Mutate  bool      `json:"mutate,omitempty"`
 }
 
 type ChainObs struct {
@@ -114,6 +121,10 @@ type Obs struct {
 	Strs  []string  `json:"strs,omitempty"` // str / cstr: the loaded values, in the order of Case.Strs
 	Level string    `json:"level,omitempty"`
 	Bad   string    `json:"bad,omitempty"` // observation that cannot be expressed in the model's vocabulary
+	// mhist: what every load returned; Still: at the end every earlier result holds what it held when the
+	// runner left it
+	Hist  []LoadObs `json:"hist,omitempty"`
+	Still bool      `json:"still,omitempty"`
 }
 
 // ---- driving the real loaders --------------------------------------------------------------------
@@ -151,7 +162,11 @@ func relayerDoc(c Case) map[string]interface{} {
 		}
 	case "upl":
 		if v, ok := numValue(*c.W, "file"); ok {
-			rel["uploaderConfig"] = map[string]interface{}{"maxRetries": v}
+			key := "maxRetries"
+			if c.Field == "elapsed" {
+				key = "maxElapsedTime"
+			}
+			rel["uploaderConfig"] = map[string]interface{}{key: v}
 		}
 	case "level":
 		rel["logLevel"] = c.Text
@@ -761,6 +776,8 @@ func run(c Case) Obs {
 			m = cfg.ChainConfigs[0]
 		}
 		return construct(c.Chain, m)
+	case "mhist":
+		return runMergeHist(c)
 	case "merge":
 		var domains []map[string]interface{}
 		for _, e := range c.Locals {
@@ -1494,12 +1511,14 @@ func gen(r *vgen.Rng, tier string) []Case {
 	out = append(out, genChains(r, tier)...)
 	out = append(out, genChainIds(r, tier)...)
 	out = append(out, genMerges(r, tier)...)
+	out = append(out, genMergeHists(r, tier)...)
 	out = append(out, genKeys(r, tier)...)
 	out = append(out, genNums(r, tier)...)
 	out = append(out, genFees(r, tier)...)
 	out = append(out, genPort0s(r, tier)...)
 	out = append(out, genDurSpellings(r, tier)...)
 	out = append(out, genUpls(r, tier)...)
+	out = append(out, genElapsed(r, tier)...)
 	return out
 }
 
@@ -1651,6 +1670,8 @@ func coq(c Case, o Obs) string {
 		after := "(Some (mkAfter (mkChainCfg " + zOfDec(o.Chain.AId) + " " + zOfDec(o.Chain.AInterval) + " " + zOfDec(o.Chain.AConfs) + " " + zOfDec(o.Chain.AStart) + ") " +
 			vgen.Bool(o.Chain.Same) + " " + vgen.ListOf(o.Chain.Calcs, calcOf) + "))"
 		return ctor + in + " (Some (mkChainCfg " + zOfDec(o.Chain.Id) + " " + zOfDec(o.Chain.Interval) + " " + zOfDec(o.Chain.Confs) + " " + zOfDec(o.Chain.Start) + ", " + calc + ")) " + after
+	case "mhist":
+		return coqMergeHist(c, o)
 	case "merge":
 		impl := "None"
 		if o.Ok {
@@ -1720,6 +1741,9 @@ func kind(c Case) string {
 		}
 		return "num-" + c.Chain + "-" + c.Loader
 	case "upl":
+		if c.Field == "elapsed" {
+			return "upl-elapsed-" + c.Loader
+		}
 		return "upl-" + c.Loader
 	case "fee":
 		return "fee-" + c.Loader
@@ -1739,6 +1763,11 @@ func kind(c Case) string {
 		return "level-" + c.Loader
 	case "cstr":
 		return "cstr-" + c.Chain + "-" + c.Loader
+	case "mhist":
+		if c.Mutate {
+			return "loadhist-results-changed"
+		}
+		return "loadhist"
 	}
 	if emptyOverlap(c) {
 		return "merge-empty-local-" + c.Loader
@@ -1779,6 +1808,8 @@ func main() {
 				return c.Interval != nil || c.Confs != nil || c.Missing != "" || c.Id != nil
 			case "net", "level", "fee", "port0":
 				return true
+			case "mhist":
+				return mergeHistNonTrivial(c, o)
 			case "upl":
 				return c.W != nil && !c.W.Absent
 			case "num":
@@ -1793,6 +1824,6 @@ func main() {
 			}
 			return len(c.Locals) > 0
 		},
-		Rule: "boundary lists (0, +-1, 32767/32768, 65535/65536, 2^31, 2^63, 2^64, int64-overflow edge per duration unit) x {file, env} loader x field for ports and durations; substrateNetwork at the uint16 edges x {direct, file, env}; interval x confirmations grid x {evm, substrate, btc} x {constructor directly, via file loader, via env loader} with missing-required-field variants; the chain id through the same three constructors x three paths: 0, 1, 2, 254, 255, 256, 257, 511, 513, 65535, 65537, 2^31, 2^32+1, 2^53, -1, -255 (float64 and Go int), 3/2, 511/2, 513/2, 1/2, -1/2, 1025/1024, integers spelled as floats (1.0, 255.0, 256.0, 257.0), ids written as strings / bools, and random ids (in range, congruent to an id in range mod 256, negative, fractional) combined with other settings and missing fields; the complete two-key local/shared state matrix (absent, local only, shared only, equal, different, empty-vs-set, set-vs-empty, empty only, both empty) plus random 0..3-chain configurations with unknown ids, missing id/type, int and float ids; chain ids over 0..3, 255..258, 511..513, 65535..65537, 2^31, 2^32+1, negative, non-integral and string ids against shared configurations holding the same id, none, only a congruent id (mod 2^8 / 2^16 / 2^32, truncated / rounded), or the congruent id before the equal one; after every accepted chain config the start-block computation is run on the config's own pointers three times and String() once and ALL fields of the config object are compared by value with a snapshot taken right after loading; the 12 string-valued relayer settings (opentelemetry url, log file, env, id, key share paths, MPC key, topology encryption key / url / path, uploader url / token) x {file, env} x a catalogue of texts ('=' anywhere, '==' at the end, URL punctuation, '_' and the SYG prefix inside the value, blanks, quotes, JSON/shell meta characters, texts that look like numbers/bools/null, unicode, 4 kB) one at a time and all at once with pairwise different texts (rotated catalogue + random texts, settings left out / empty); log level names and non-names; string, bool and handler-list settings of evm/substrate/btc chain entries through the constructor directly, the file loader and SYG_CHAINS; key spelling: the id key as Id / ID / iD x ids in and out of 0..255 x {constructor, loader without a shared configuration, loader with one}, every key of a chain entry in lower / Upper-first / ALL CAPS / mIxEd spelling, each numeric key alone in another spelling at its range edges, one key under two spellings with different values (exact + other, two non-exact), random subsets of respelled keys, relayer-level keys and environment variable names in other spellings, respelled id / type in local and shared entries of the merge; every numeric / duration setting of RawEVMConfig, RawSubstrateConfig and RawBtcConfig (maxGasPrice, gasMultiplier, gasIncreasePercentage, gasLimit, transferGas, startBlock, blockConfirmations, blockInterval, blockRetryInterval, chainID, substrateNetwork, tip) one at a time with the boundary values of its type (-2^63, -2^53-1, -2^32, -2^31, -1, 0, 1, 2, 255, 65535, 2^31, 2^32, 2^53+-1, 2^63-1, 2^63, 2^64-1 as Go integers; the float64-exact ones, 2^64, 2^65, +-1e30 for the settings with a lower bound, as float64 and as the digits of a JSON document through the file / env loaders with and without a shared configuration), fractions (gasMultiplier; negative ones for unsigned settings), strings holding numbers in several spellings, bools, the key left out, and random integers of the type; the feeAmount string of a BTC resource (alone, second of two, any of three) in 80 spellings - zero padded, signed, 0x / 0b / 0o, '_', blanks and line ends, thousands separators, exponent and fraction forms, words, other digit scripts, empty - plus random (padded / signed) decimals of up to 90 bits x {constructor, file, env}; relayer ports in the spellings of the base-0 syntax (zero padded with the same value, 08 / 09, 0x / 0X / 0b / 0o at the 16-bit edge, '_' in every position); distinct = distinct input JSON; non-trivial = text of the modelled grammar / at least one numeric setting or a missing required field / at least one local chain",
+		Rule: "boundary lists (0, +-1, 32767/32768, 65535/65536, 2^31, 2^63, 2^64, int64-overflow edge per duration unit) x {file, env} loader x field for ports and durations; substrateNetwork at the uint16 edges x {direct, file, env}; interval x confirmations grid x {evm, substrate, btc} x {constructor directly, via file loader, via env loader} with missing-required-field variants; the chain id through the same three constructors x three paths: 0, 1, 2, 254, 255, 256, 257, 511, 513, 65535, 65537, 2^31, 2^32+1, 2^53, -1, -255 (float64 and Go int), 3/2, 511/2, 513/2, 1/2, -1/2, 1025/1024, integers spelled as floats (1.0, 255.0, 256.0, 257.0), ids written as strings / bools, and random ids (in range, congruent to an id in range mod 256, negative, fractional) combined with other settings and missing fields; the complete two-key local/shared state matrix (absent, local only, shared only, equal, different, empty-vs-set, set-vs-empty, empty only, both empty) plus random 0..3-chain configurations with unknown ids, missing id/type, int and float ids; chain ids over 0..3, 255..258, 511..513, 65535..65537, 2^31, 2^32+1, negative, non-integral and string ids against shared configurations holding the same id, none, only a congruent id (mod 2^8 / 2^16 / 2^32, truncated / rounded), or the congruent id before the equal one; after every accepted chain config the start-block computation is run on the config's own pointers three times and String() once and ALL fields of the config object are compared by value with a snapshot taken right after loading; the 12 string-valued relayer settings (opentelemetry url, log file, env, id, key share paths, MPC key, topology encryption key / url / path, uploader url / token) x {file, env} x a catalogue of texts ('=' anywhere, '==' at the end, URL punctuation, '_' and the SYG prefix inside the value, blanks, quotes, JSON/shell meta characters, texts that look like numbers/bools/null, unicode, 4 kB) one at a time and all at once with pairwise different texts (rotated catalogue + random texts, settings left out / empty); log level names and non-names; string, bool and handler-list settings of evm/substrate/btc chain entries through the constructor directly, the file loader and SYG_CHAINS; key spelling: the id key as Id / ID / iD x ids in and out of 0..255 x {constructor, loader without a shared configuration, loader with one}, every key of a chain entry in lower / Upper-first / ALL CAPS / mIxEd spelling, each numeric key alone in another spelling at its range edges, one key under two spellings with different values (exact + other, two non-exact), random subsets of respelled keys, relayer-level keys and environment variable names in other spellings, respelled id / type in local and shared entries of the merge; every numeric / duration setting of RawEVMConfig, RawSubstrateConfig and RawBtcConfig (maxGasPrice, gasMultiplier, gasIncreasePercentage, gasLimit, transferGas, startBlock, blockConfirmations, blockInterval, blockRetryInterval, chainID, substrateNetwork, tip) one at a time with the boundary values of its type (-2^63, -2^53-1, -2^32, -2^31, -1, 0, 1, 2, 255, 65535, 2^31, 2^32, 2^53+-1, 2^63-1, 2^63, 2^64-1 as Go integers; the float64-exact ones, 2^64, 2^65, +-1e30 for the settings with a lower bound, as float64 and as the digits of a JSON document through the file / env loaders with and without a shared configuration), fractions (gasMultiplier; negative ones for unsigned settings), strings holding numbers in several spellings, bools, the key left out, and random integers of the type; the feeAmount string of a BTC resource (alone, second of two, any of three) in 80 spellings - zero padded, signed, 0x / 0b / 0o, '_', blanks and line ends, thousands separators, exponent and fraction forms, words, other digit scripts, empty - plus random (padded / signed) decimals of up to 90 bits x {constructor, file, env}; relayer ports in the spellings of the base-0 syntax (zero padded with the same value, 08 / 09, 0x / 0X / 0b / 0o at the 16-bit edge, '_' in every position); load histories: 26 generated histories (+ the reversed order of the A, B, A ones) of 1..4 loads through the file / env loaders against the SAME maps of a shared configuration of 1..3 domains - a document with local-only keys then one without them, the same document two or three times, A B A and B A, two or three local entries of ONE domain with different keys, a document that does not load in between, random documents whose domains may repeat - half of them with the caller changing every returned chain entry right after reading it; no empty values; uploaderConfig.maxElapsedTime in a config file: integers -2^100 .. 2^100 at the int64 edges, fractions, 30 texts (every unit at its int64 edge, bare numbers, non-durations), bools, absent, random integers and <digits><unit> texts; distinct = distinct input JSON; a load history is non-trivial when at least two of its loads returned a configuration; non-trivial = text of the modelled grammar / at least one numeric setting or a missing required field / at least one local chain",
 	})
 }
